@@ -53,6 +53,10 @@ def candidates(rng, n):
     base.append(enum(0, [variant("LegacyGet", ser=["get"]), variant("Get", aci=1), variant("Put", ser=["put", "PUT"])]))
     base.append(enum(0, [variant("Head", aci=0, ser=["head"]), variant("HEAD"), variant("Tail")], aci=True))
     base.append(enum(0, [variant("A", ser=["x"], aci=1), variant("B", ser=["X"], aci=1), variant("C", ser=["x"])]))
+    base.append(enum(0, [variant("Mon"), variant("Tue"), variant("Off1", dis=True), variant("Off2", dis=True), variant("Off3", dis=True),
+                         variant("Same", ser=["Mon2"]), variant("Other", "tuple", [field("String")], default=True)]))
+    base.append(enum(0, [variant("Mon"), variant("Tue"), variant("Off1", dis=True), variant("Off2", dis=True), variant("Wed"), variant("Thu", dis=True)]))
+    base.append(enum(0, [variant("Loose", ser=["Red"], aci=1), variant("Get", ser=["get"], aci=0), variant("Longest", ser=["Crimson"], aci=1), variant("Plain")]))
     base.append(enum(0, []))
     for E in SC.dictionary(1):
         base.append(fieldless(copy.deepcopy(E)))
